@@ -7,6 +7,7 @@ read of the live object, both against the state/answers computed by TLC."""
 from harness.common import Run
 from harness.table_engine import run_table_property
 from harness.vault_engine import run_vault_part
+from harness.vault_trace import run_vault_trace_part
 
 
 def main(tier: str) -> int:
@@ -25,4 +26,6 @@ def main(tier: str) -> int:
     run_table_property(run, tier, verdict_kinds=("xml", "live", "exc", "model"))
     # implementation-shaped refinement (Vault.tla): run-length vaults of cells, rows, columns
     run_vault_part(run, tier, verdict_kinds=("xml", "live"))
+    # ... and the other direction: every vault call of random histories and of the repository's own tests is a Vault.tla step
+    run_vault_trace_part(run, tier)
     return run.finish()
